@@ -14,9 +14,6 @@ from harness.reftt import RefTT
 from harness.refsim import const_value
 
 PROPERTY = "C19"
-# not registered in MANIFEST.json: the ANML reader rejects more shapes of writer output than are classified
-# so far (DESIGN.md 12.1); tools_manifest.py lists the property under not_applicable instead
-REGISTER = False
 TECHNIQUE = "property-based round trip (ANMLWriter -> ANMLReader) judged by bisimulation with the reference semantics (instantaneous part) and structural + reference-verdict comparison (temporal part)"
 RULE = (
     "Typed classical, numeric (bounded / unbounded int and real fluents) and temporal problems (durative actions with start / "
@@ -74,6 +71,39 @@ def odd_numeric_bounds(spec):
     return False
 
 
+def canon(e):
+    """printed form modulo simplification and the order of commutative operands (the reader re-associates)"""
+    e = e.simplify() if hasattr(e, "simplify") else e
+
+    import re as _re
+
+    base = lambda name: _re.sub(r"_\d+$", "", name)  # the writer renames clashing parameters / variables p0 -> p0_0
+
+    def rec(n):
+        if n.is_parameter_exp():
+            return "P:" + base(n.parameter().name)
+        if n.is_variable_exp():
+            return "V:" + base(n.variable().name)
+        if not n.args:
+            return str(n)
+        parts = [rec(a) for a in n.args]
+        if n.is_plus() or n.is_times() or n.is_and() or n.is_or() or n.is_equals() or n.is_iff():
+            parts = sorted(parts)
+        head = n.node_type.name
+        if n.is_exists() or n.is_forall():
+            head += "[" + ",".join(f"{v.type} {base(v.name)}" for v in n.variables()) + "]"
+        if n.is_fluent_exp():
+            head = n.fluent().name
+        return head + "(" + ", ".join(parts) + ")"
+
+    return rec(e)
+
+
+def effstr(e):
+    """printed form of an effect with simplified value / condition (the reader simplifies constants)"""
+    return f"{e.kind.name} {canon(e.fluent)} {canon(e.value)} if {canon(e.condition)} forall {[str(v.type) + " " + __import__("re").sub(r"_\d+$", "", v.name) for v in e.forall]}"
+
+
 def check(ctx, case):
     from unified_planning.environment import Environment
     from unified_planning.io import ANMLReader, ANMLWriter
@@ -89,13 +119,31 @@ def check(ctx, case):
     try:
         q = ANMLReader(Environment()).parse_problem_string(text)
     except Exception as e:
+        if type(e).__name__ == "UPConflictingEffectsException":
+            effs = [ef for a in problem.actions for ef in (a.effects if not isinstance(a, DurativeAction) else [x for l in a.effects.values() for x in l])]
+            if any(ef.is_conditional() and ef.condition.simplify().is_true() for ef in effs):
+                # a conditional effect with a tautological condition is written unconditionally and then conflicts
+                # statically with another effect: outside the expressible fragment (same abstention as C18)
+                raise Abstain("tautological-effect-condition")
         tag = ""
         msg = str(e)
+        import re as _re
+
+        mm = _re.search(r"line:(\d+)", msg)
+        lines = text.splitlines()
+        bad = lines[int(mm.group(1)) - 1] if mm and 0 < int(mm.group(1)) <= len(lines) else ""
         if "Expected {Forward" in msg and "when" in text:
             tag = ":compound-condition-in-when"
-        elif odd_numeric_bounds(spec) and ("W:(0-9)" in msg or "infinity" in msg or "Expected" in msg):
+        elif _re.match(r"\s*(constant|fluent)\s+(integer|float)\s*[\[\(]", bad) and odd_numeric_bounds(spec):
             tag = ":negative-fractional-or-half-open-numeric-bounds"
-        raise Violation(f"reader-rejects-written-text:{type(e).__name__}{tag}", f"{str(e)[:200]}\n{text}", case)
+        elif ("forall(" in bad or "exists(" in bad) and ("(forall(" in bad or "(exists(" in bad or "when" in bad):
+            # a quantified expression inside parentheses (operand of another operator, or a when-condition)
+            tag = ":quantifier-inside-expression"
+        elif " == " in bad and '"iff"' in __import__("json").dumps(spec):
+            # an equivalence between compound Boolean operands, printed with '=='
+            tag = ":iff-printed-as-equality"
+        sig = f"reader-rejects-written-text{tag}" if tag else f"reader-rejects-written-text:{type(e).__name__}"
+        raise Violation(sig, f"{str(e)[:200]}\n{text}", case)
     temporal = any(isinstance(a, DurativeAction) for a in problem.actions) or problem.timed_effects or problem.timed_goals
     ident = lambda items: {i.name: i.name for i in items}
     for what, mine, has in (("fluent", problem.fluents, q.has_fluent), ("object", problem.all_objects, q.has_object), ("action", problem.actions, q.has_action)):
@@ -115,22 +163,22 @@ def check(ctx, case):
             if not isinstance(a2, DurativeAction):
                 raise Violation("durative-became-instantaneous", a.name, case)
             d1, d2 = a.duration, a2.duration
-            if (str(d1.lower), str(d1.upper), d1.is_left_open(), d1.is_right_open()) != (str(d2.lower), str(d2.upper), d2.is_left_open(), d2.is_right_open()):
+            if (canon(d1.lower), canon(d1.upper), d1.is_left_open(), d1.is_right_open()) != (canon(d2.lower), canon(d2.upper), d2.is_left_open(), d2.is_right_open()):
                 raise Violation("duration-differs", f"{a.name}: {d1} became {d2}", case)
-            c1 = sorted((str(iv), sorted(map(str, cs))) for iv, cs in a.conditions.items())
-            c2 = sorted((str(iv), sorted(map(str, cs))) for iv, cs in a2.conditions.items())
+            c1 = sorted((str(iv), sorted({canon(c) for c in cs})) for iv, cs in a.conditions.items())
+            c2 = sorted((str(iv), sorted({canon(c) for c in cs})) for iv, cs in a2.conditions.items())
             if c1 != c2:
                 raise Violation("timed-conditions-differ", f"{a.name}: {c1} became {c2}", case)
-            e1 = sorted((str(t), sorted(map(str, es))) for t, es in a.effects.items())
-            e2 = sorted((str(t), sorted(map(str, es))) for t, es in a2.effects.items())
+            e1 = sorted((str(t), sorted(map(effstr, es))) for t, es in a.effects.items())
+            e2 = sorted((str(t), sorted(map(effstr, es))) for t, es in a2.effects.items())
             if e1 != e2:
                 raise Violation("timed-effects-differ", f"{a.name}: {e1} became {e2}", case)
-    te1 = sorted((str(t), sorted(map(str, es))) for t, es in problem.timed_effects.items())
-    te2 = sorted((str(t), sorted(map(str, es))) for t, es in q.timed_effects.items())
+    te1 = sorted((str(t), sorted(map(effstr, es))) for t, es in problem.timed_effects.items())
+    te2 = sorted((str(t), sorted(map(effstr, es))) for t, es in q.timed_effects.items())
     if te1 != te2:
         raise Violation("problem-timed-effects-differ", f"{te1} became {te2}", case)
-    tg1 = sorted((str(t), sorted(map(str, es))) for t, es in problem.timed_goals.items())
-    tg2 = sorted((str(t), sorted(map(str, es))) for t, es in q.timed_goals.items())
+    tg1 = sorted((str(t), sorted({canon(g_) for g_ in es})) for t, es in problem.timed_goals.items())
+    tg2 = sorted((str(t), sorted({canon(g_) for g_ in es})) for t, es in q.timed_goals.items())
     if tg1 != tg2:
         raise Violation("timed-goals-differ", f"{tg1} became {tg2}", case)
     # verdict equality on generated plans
